@@ -106,6 +106,15 @@ def build_registry(spec, variant=0):
     dtype = np.dtype(spec.get("array_dtype", spec["dtype"])).type  # registered arrays may differ in precision from the IO object
     content = spec["content"] if variant == 0 else "ordinary"
     naming = spec["naming"]
+    _ren = set(spec.get("rename", ()))  # kinds ('es','ev','ls','lv','grid') registered under ANOTHER name (same count)
+    _names0, _grid_name0 = _names, _grid_name
+
+    def _names_r(naming_, kind_, g_, j_):
+        return _names0(naming_, kind_, g_, j_) + ("_alt" if kind_ in _ren else "")
+
+    def _grid_name_r(naming_, g_):
+        n_ = _grid_name0(naming_, g_)
+        return ((n_ if n_ is not None else f"grid{g_}") + "_alt") if "grid" in _ren else n_
     grid_size = (5, 6) if dim == 2 else (3, 4, 5)
     arrays = {}
     order = []
@@ -131,9 +140,9 @@ def build_registry(spec, variant=0):
         pos = np.flipud(np.array(np.meshgrid(*axes, indexing="ij"))).astype(dtype)
         fields = {}
         for j in range(ns):
-            fields[_names(naming, "es", 0, j)] = _fill_l(gs, dtype, content, k + j)
+            fields[_names_r(naming, "es", 0, j)] = _fill_l(gs, dtype, content, k + j)
         for j in range(nv):
-            fields[_names(naming, "ev", 0, j)] = _fill_l((dim, *gs), dtype, content, k + 10 + j)
+            fields[_names_r(naming, "ev", 0, j)] = _fill_l((dim, *gs), dtype, content, k + 10 + j)
         io = spu.EulerianFieldIO(position_field=pos, eulerian_fields_dict=fields)
         for n_, a in fields.items():
             arrays[("E", n_)] = a
@@ -143,9 +152,9 @@ def build_registry(spec, variant=0):
         io.define_eulerian_grid(origin=origin, dx=np.full(dim, dx_eff), grid_size=np.array(gs))
         fields = {}
         for j in range(ns):
-            fields[_names(naming, "es", 0, j)] = _fill_l(gs, dtype, content, k + j)
+            fields[_names_r(naming, "es", 0, j)] = _fill_l(gs, dtype, content, k + j)
         for j in range(nv):
-            fields[_names(naming, "ev", 0, j)] = _fill_l((dim, *gs), dtype, content, k + 10 + j)
+            fields[_names_r(naming, "ev", 0, j)] = _fill_l((dim, *gs), dtype, content, k + 10 + j)
         io.add_as_eulerian_fields_for_io(**fields)
         for n_, a in fields.items():
             arrays[("E", n_)] = a
@@ -153,10 +162,10 @@ def build_registry(spec, variant=0):
         grid = _fill((dim, N), dtype, content, k + 20 + g)
         fields = {}
         for j in range(ls):
-            fields[_names(naming, "ls", g, j)] = _fill_l((N,), dtype, content, k + 30 + 3 * g + j)
+            fields[_names_r(naming, "ls", g, j)] = _fill_l((N,), dtype, content, k + 30 + 3 * g + j)
         for j in range(lv):
-            fields[_names(naming, "lv", g, j)] = _fill_l((dim, N), dtype, content, k + 40 + 3 * g + j)
-        gname = _grid_name(naming, g)
+            fields[_names_r(naming, "lv", g, j)] = _fill_l((dim, N), dtype, content, k + 40 + 3 * g + j)
+        gname = _grid_name_r(naming, g)
         io.add_as_lagrangian_fields_for_io(lagrangian_grid=grid, lagrangian_grid_name=gname, lagrangian_grid_connect=(g % 2 == 1), **fields)
         real_name = gname if gname is not None else f"Lagrangian_grid_{g}"
         arrays[("G", real_name)] = grid
@@ -302,8 +311,10 @@ def case_rod(dim, dtype, n_elems):
 
 
 MISMATCHES = ["missing-eul-scalar", "missing-eul-vector", "missing-lag-scalar", "missing-lag-vector", "missing-grid", "missing-grid-no-fields",
-              "origin-shift", "origin-shift-first-axis", "origin-shift-last-axis", "origin-shift-small", "origin-shift-negative", "origin-shift-small-negative", "dx-x2", "dx-x1.001", "dx-x0.5", "dx-x0.999", "grid+1", "grid-1", "grid+1-first-axis", "grid-slab-first-axis", "grid-slab-last-axis", "eul-scalar-vs-file-without-eulerian"]
-EULERIAN_MISMATCHES = ["missing-eul-scalar", "missing-eul-vector", "origin-shift", "origin-shift-first-axis", "origin-shift-last-axis", "origin-shift-small", "origin-shift-negative", "origin-shift-small-negative", "dx-x2", "dx-x1.001", "dx-x0.5", "dx-x0.999", "grid+1", "grid-1", "grid+1-first-axis", "grid-slab-first-axis", "grid-slab-last-axis"]
+              "origin-shift", "origin-shift-first-axis", "origin-shift-last-axis", "origin-shift-small", "origin-shift-negative", "origin-shift-small-negative", "dx-x2", "dx-x1.001", "dx-x0.5", "dx-x0.999", "grid+1", "grid-1", "grid+1-first-axis", "grid-slab-first-axis", "grid-slab-last-axis", "eul-scalar-vs-file-without-eulerian",
+              # the file holds as many (or more) datasets of the class as the reader registers, but under OTHER names: presence is by name, not by count
+              "renamed-eul-scalar", "renamed-eul-vector", "renamed-lag-scalar", "renamed-lag-vector", "renamed-grid", "superset-other-names-eul"]
+EULERIAN_MISMATCHES = ["missing-eul-scalar", "missing-eul-vector", "origin-shift", "origin-shift-first-axis", "origin-shift-last-axis", "origin-shift-small", "origin-shift-negative", "origin-shift-small-negative", "dx-x2", "dx-x1.001", "dx-x0.5", "dx-x0.999", "grid+1", "grid-1", "grid+1-first-axis", "grid-slab-first-axis", "grid-slab-last-axis", "renamed-eul-scalar", "renamed-eul-vector", "superset-other-names-eul"]
 ORIGINS = {"default": None, "per-axis": [0.125, -0.75, 2.5]}  # coordinate of the first cell centre per array axis
 
 
@@ -363,6 +374,11 @@ def case_mismatch(dim, dtype, kind, cls="IO", load_cls=None, origins="default"):
         load_spec["grid_delta"] = [0] * (dim - 1) + [1]
     elif kind == "eul-scalar-vs-file-without-eulerian":
         save_spec["eul"] = "none"
+    elif kind.startswith("renamed-"):
+        save_spec["rename"] = [{"eul-scalar": "es", "eul-vector": "ev", "lag-scalar": "ls", "lag-vector": "lv", "grid": "grid"}[kind[len("renamed-"):]]]
+    elif kind == "superset-other-names-eul":  # two scalars and two vectors in the file, none under a registered name
+        save_spec["eul"] = "s2v2"
+        save_spec["rename"] = ["es", "ev"]
     try:
         io_a, _, _ = build_registry(save_spec, 0)
         fn = os.path.join(d, "chk.h5")
